@@ -116,6 +116,9 @@ def run(all_props=False, only=None):
             continue
         meta = json.load(open(os.path.join(dst, 'meta.json')))
         pid = meta['property']
+        if meta.get('superseded'):
+            rows.append((sid, 'SUPERSEDED', meta['superseded']['by'][:80]))
+            continue
         d, err = scratch(os.path.join(dst, 'patch.diff'))
         if d is None:
             rows.append((sid, 'STALE (patch no longer applies)', ''))
